@@ -92,7 +92,7 @@ def check_archive(ctx, ms, members, blob, variant, attrs):
             ctx.violation({**attrs, "fail": "listing", "mode": mode}, {**det, "want": want_names, "got": [g.name for g in got]})
             return False
         for g, m in zip(got, members):
-            if g.isdir() != m["dir"] or (not m["dir"] and g.size != m["size"]) or g.is_visor != m["visor"]:
+            if g.isdir() != m["dir"] or (not m["dir"] and g.size != m["size"]):   # (the `is_visor` attribute is not part of the property)
                 ctx.violation({**attrs, "fail": "member-meta", "mode": mode}, {**det, "member": m["name"], "isdir": g.isdir(), "size": g.size})
                 return False
             if not m["dir"]:
